@@ -58,6 +58,9 @@ pub enum FaultKind {
     LoseReply,
     /// (epoch-settings only) a genuine reply of an earlier epoch is served again
     Stale(Vec<u8>),
+    /// (register-signer only) a genuine "registration round not yet opened" reply (550) of the
+    /// aggregator is served again; the request is not delivered
+    RoundNotOpen(Vec<u8>),
 }
 
 impl FaultKind {
@@ -66,6 +69,7 @@ impl FaultKind {
             FaultKind::Drop => "drop",
             FaultKind::LoseReply => "lose-reply",
             FaultKind::Stale(_) => "stale-settings",
+            FaultKind::RoundNotOpen(_) => "round-not-open",
         }
     }
 }
@@ -107,6 +111,8 @@ pub struct FrontState {
     pub agg_down: AtomicBool,
     /// genuine 200 replies of /epoch-settings, by the epoch they announce
     pub settings_cache: Mutex<BTreeMap<u64, Vec<u8>>>,
+    /// a genuine 550 reply of POST /register-signer
+    pub round_not_open_reply: Mutex<Option<Vec<u8>>>,
     pub seq: AtomicU64,
 }
 
@@ -118,6 +124,7 @@ impl FrontState {
             plans: Mutex::new(BTreeMap::new()),
             agg_down: AtomicBool::new(false),
             settings_cache: Mutex::new(BTreeMap::new()),
+            round_not_open_reply: Mutex::new(None),
             seq: AtomicU64::new(0),
         })
     }
@@ -144,6 +151,7 @@ impl FrontState {
             }
             let applies = match (&f.kind, f.on) {
                 (FaultKind::Stale(_), _) => kind == ReqKind::Settings,
+                (FaultKind::RoundNotOpen(_), _) => kind == ReqKind::RegisterSigner,
                 (_, None) => true,
                 (_, Some(k)) => k == kind,
             };
@@ -173,6 +181,9 @@ impl FrontState {
         // handler): run it as a task of its own
         let rb = rb.body(body.to_vec());
         let resp = tokio::spawn(async move { rb.reply(&routes).await }).await.ok()?;
+        if resp.status().as_u16() == 550 && path.ends_with("/register-signer") {
+            *self.round_not_open_reply.lock().unwrap() = Some(resp.body().to_vec());
+        }
         Some((resp.status().as_u16(), resp.headers().clone(), resp.body().to_vec()))
     }
 
@@ -203,6 +214,13 @@ impl FrontState {
                 ev.real_body = String::from_utf8_lossy(b).chars().take(160).collect();
                 self.log.lock().unwrap().push(ev);
                 return Response::builder().status(200).header("content-type", "application/json").body(b.clone()).unwrap();
+            }
+            Some(FaultKind::RoundNotOpen(b)) => {
+                ev.fault = Some("round-not-open");
+                ev.returned_status = 550;
+                ev.real_body = String::from_utf8_lossy(b).chars().take(160).collect();
+                self.log.lock().unwrap().push(ev);
+                return Response::builder().status(550).header("content-type", "application/json").body(b.clone()).unwrap();
             }
             _ => {}
         }
